@@ -296,7 +296,8 @@ def framing_family(rnd, quick):
              {"m": "POST", "framing": {"k": "cl", "n": 0}}, {"m": "POST", "framing": {"k": "chunked", "chunks": [1, 1, 1], "te": " chunked"}},
              {"m": "POST", "framing": {"k": "chunked", "chunks": [0x100]}}, {"m": "POST", "framing": {"k": "chunked", "chunks": [0xabc, 0x10]}},
              {"m": "PUT", "framing": {"k": "chunked", "chunks": [0x1000, 0x123], "ext": ";q"}}, {"m": "POST", "framing": {"k": "chunked", "chunks": [0x10001]}},
-             {"m": "POST", "framing": {"k": "cl", "n": 300}}]
+             {"m": "POST", "framing": {"k": "cl", "n": 300}}, {"m": "POST", "framing": {"k": "cl", "n": 7, "ows": True}},
+             {"m": "PUT", "ver": 10, "conn": "keep-alive", "framing": {"k": "cl", "n": 4, "ows": True}}]
     bads = [{"m": "POST", "framing": {"k": c}} for c in BAD_HEAD] + \
            [{"m": "POST", "framing": {"k": "badchunk:" + c, "good": g}} for c in BAD_CHUNK for g in ([], [3])] + \
            [{"m": m10, "ver": 10, "framing": {"k": "te10"}} for m10 in ("POST", "PUT", "GET")]
